@@ -671,6 +671,7 @@ class Engine:
         self.decisions = []
         self.dkeys = []
         self.facts = {}
+        self.tie_keys = set()
         self.soft = []  # preferences for the validation model only (never part of a verification condition)
         self.aux = {}
         self.fresh = 0
@@ -705,6 +706,9 @@ class Engine:
         (used for the float64 validation run: a tie exactly on a branch boundary is where float rounding flips a branch)."""
         strict, margin, fact_terms = [], [], []
         small_used = False
+        # a path that contains an equality between real-valued terms (x <= k and x >= k both learned) is a tie path: doubles
+        # cannot realise it in general (0.04 - 0.03 != 0.01), so its float run is not comparable
+        tie_path = any(not p_integral(dict(key)) and len(dict(key)) > 1 for key in self.tie_keys)
         mu = z3.RealVal("1/97")  # (not a round number: models built from it are not 2-decimal or integral by accident) above the tolerance of the concrete comparisons (1e-7 + 1e-6 |x|) for |x| <= 1000
         for key, mask in self.facts.items():
             if p_integral(dict(key)):
@@ -790,7 +794,7 @@ class Engine:
             if model is not None:
                 n_hard = len(ps) - len(self.soft)
                 act = {str(a) for a in active}
-                return model, all(str(pb) in act or any(("%s_%d" % (pb, k)) in act for k in (0, 1)) for pb in ps[:n_hard])
+                return model, (not tie_path) and all(str(pb) in act or any(("%s_%d" % (pb, k)) in act for k in (0, 1)) for pb in ps[:n_hard])
         if not strict:
             return self.get_model(), True
         r = self._check(*strict)
@@ -818,7 +822,10 @@ class Engine:
         key, mask = atom
         if not truth:
             mask = 7 ^ mask
-        self.facts[key] = self.facts.get(key, 7) & mask
+        old = self.facts.get(key, 7)
+        self.facts[key] = old & mask
+        if old & mask == 2 and old != 2 and mask != 2:
+            self.tie_keys.add(key)  # x <= k and x >= k learned from two separate decisions: an exact tie
 
     def assume(self, cond):
         if isinstance(cond, SymBool):
